@@ -49,6 +49,7 @@ class Info:
     nontrivial: bool = False
     classes: tuple = ()
     sample: Any = None  # abbreviated, JSON-able representation (optional)
+    counts: Any = None  # optional dict of additive counters (e.g. executions inside one scenario)
 
 
 def fail(detail: str, sig: str | None = None):
@@ -240,6 +241,9 @@ class _Stats:
             return
         for c in info.classes:
             self.classes[c] = self.classes.get(c, 0) + 1
+        if info.counts:
+            for c, n in info.counts.items():
+                self.classes[c] = self.classes.get(c, 0) + n
         if info.nontrivial:
             self.nontrivial_hashes.add(case_hash(case))
             if len(self.samples) < 3:
@@ -303,6 +307,14 @@ def _worker_hyp(clause: HypClause, n: int, seed: int, shard: int, known_sigs, sh
         run()
     except Violation:
         pass  # stats.failure holds the last (= minimal) failing case
+    except hypothesis.errors.Flaky:
+        # The oracle raised a Violation for a case that passed when Hypothesis ran the same case again. The oracles are
+        # pure functions of (case, code under test), so this means the code under test carries state between calls:
+        # report the recorded failing case, marked as history-dependent (its replay may pass in a fresh process).
+        if stats.failure is None:
+            raise
+        case_enc, detail, sig = stats.failure
+        stats.failure = (case_enc, "[history-dependent: the same case passed when run again in the same process - state carried between calls] " + detail, sig)
     return stats.pack()
 
 
@@ -344,7 +356,7 @@ def _job(job):
             res = _worker_enum(clause, a, b, _JOBCTX["tier"], _JOBCTX["known_sigs"])
         res["error"] = None
     except BaseException as exc:  # harness error
-        res = {"error": f"{type(exc).__name__}: {exc}\n{traceback.format_exc()}"}
+        res = {"error": (f"{type(exc).__name__}: {exc}"[:600] + "\n" + traceback.format_exc()[-1200:])}
     res["ci"] = ci
     res["wall"] = time.time() - t0
     return res
